@@ -1,4 +1,5 @@
 import Model.Wire
+import Model.HttpHop
 import Driver.Util
 namespace Slimta.Driver
 open Slimta
@@ -23,6 +24,19 @@ def wireOp (args : List String) : String :=
     match hexOrEmpty addr, parseBytesList rcpts, parseBytesList parts with
     | some a, some rs, some ps => showHex (Wire.hopBytes a rs ps)
     | _, _, _ => "bad-op"
+  | ["httphop", ehlo, sender, rcpts, data] =>
+    -- the request the HTTP relay writes, as the WSGI environ presents it, and what the edge makes of it
+    match hexOrEmpty ehlo, hexOrEmpty sender, parseBytesList rcpts, hexOrEmpty data with
+    | some e, some s, some rs, some d =>
+      let env : HttpHop.Env := { ehlo := natsOfBytes e, sender := natsOfBytes s, rcpts := rs.map natsOfBytes, data := natsOfBytes d }
+      let req := HttpHop.buildRequest env
+      let g := fun n => match HttpHop.environGet req n with | some v => showHex (bytesOfNats v) | none => "none"
+      let out := match HttpHop.edgeEnvelope [] req with
+        | some o => showHex (bytesOfNats o.ehlo) ++ " " ++ showHex (bytesOfNats o.sender) ++ " " ++
+            showBytesList (o.rcpts.map bytesOfNats) ++ " " ++ showHex (bytesOfNats o.data)
+        | none => "error"
+      "cl=" ++ g .contentLength ++ " ehlo=" ++ g .ehlo ++ " sender=" ++ g .sender ++ " rcpt=" ++ g .rcpt ++ " || " ++ out
+    | _, _, _, _ => "bad-op"
   | ["xreply", code, msg, cmd] =>
     match hexOrEmpty code, hexOrEmpty msg, (if cmd == "none" then some none else (hexOrEmpty cmd).map some) with
     | some c, some m, some k =>
